@@ -154,8 +154,15 @@ def type_chunks(rng, s, t, split):
     if split and len(fl) > 1:
         k = rng.randint(1, len(fl) - 1)
         ki = rng.randint(0, len(ifs))
+        if ifs[ki:] and rng.random() < 0.5:
+            # the interfaces arrive through an extension that carries nothing else
+            return ["%stype %s%s%s {\n%s\n}" % (head, t.name, impl(ifs[:ki]), dirs, body(fl[:k])),
+                    "extend type %s%s" % (t.name, impl(ifs[ki:])),
+                    "extend type %s {\n%s\n}" % (t.name, body(fl[k:]))]
         return ["%stype %s%s%s {\n%s\n}" % (head, t.name, impl(ifs[:ki]), dirs, body(fl[:k])),
                 "extend type %s%s {\n%s\n}" % (t.name, impl(ifs[ki:]), body(fl[k:]))]
+    if split and ifs and rng.random() < 0.5:
+        return ["%stype %s%s {\n%s\n}" % (head, t.name, dirs, body(fl)), "extend type %s%s" % (t.name, impl(ifs))]
     if not fl:
         return ["%stype %s%s%s" % (head, t.name, impl(ifs), dirs)]       # only reachable through C12's rewrites
     return ["%stype %s%s%s {\n%s\n}" % (head, t.name, impl(ifs), dirs, body(fl))]
